@@ -1,7 +1,7 @@
 import TmVerif.Model.Proto
 import TmVerif.Model.IntSet
-namespace TmVerif.IntSet
-open TmVerif.Proto
+namespace TmVerif.DriverC25
+open TmVerif.Proto TmVerif.IntSet
 
 def showSet (s : IntSet) : String := s!"{showBool s.inverse} {showInts s.set}"
 
@@ -34,4 +34,4 @@ def handle (args : List String) : Option String :=
     | none => some "holds"
   | _ => none
 
-end TmVerif.IntSet
+end TmVerif.DriverC25
